@@ -418,6 +418,16 @@ impl Logger {
     }
 }
 
+#[cfg(log4rs_verif)]
+impl Logger {
+    /// Verification hook: a `Handle` for a logger that is not installed globally.
+    pub fn verif_handle(&self) -> Handle {
+        Handle {
+            shared: self.0.clone(),
+        }
+    }
+}
+
 impl log::Log for Logger {
     fn enabled(&self, metadata: &Metadata) -> bool {
         self.0
